@@ -110,6 +110,8 @@ def run(sc, choices=None):
         if disp not in ("builtin", "rel"):
             raise InvalidScenario("dispatcher")
         ping = sc.get("ping")
+        if ping and (int(ping["interval"]) < S // 2 or int(ping["timeout"]) < S // 4):
+            raise InvalidScenario("ping settings below the generator's range")
         closer = sc.get("closer")
         if closer and closer.get("kind") == "time" and disp == "rel":
             raise InvalidScenario("close() from a second thread under an external dispatcher is outside the dispatcher's contract")
